@@ -120,6 +120,77 @@ def step (st : State) (w : List String) : State × String :=
       | .ok => some "ok"
       | .fail _ => some "fail"
     (st, r.getD "bad-op")
+  | ["ad", "hitchase", cd, dob, ad, opt, _proto, route, hops, _cached] =>
+    match bools [cd, dob, ad, opt], bools (listOf hops) with
+    | some [cd, dob, ad, opt], some (h0 :: rest) =>
+      let r : ReqFlags := { cd := cd, doBit := dob && opt, ad := ad, hasOPT := opt }
+      -- the byte path folds with `wireChaseAD`, the Msg path with `chaseAD`: one verdict
+      let stored := if route == "msg" then chaseAD h0 rest else wireChaseAD (h0 :: rest)
+      let a := ednsWriteAD (cacheHitAD stored r.cd) (ednsNoAD r) false
+      (st, s!"ad={boolStr a} n={rest.length + 1}")
+    | _, _ => (st, "bad-op")
+  | "signers" :: "find" :: _ =>
+    let r : Option String := do
+      let recs ← (listOf (field w "R")).mapM fun t =>
+        match t.splitOn "/" with
+        | [o, ty] => do some (parseName o, ← ty.toNat?)
+        | _ => none
+      let sigs ← (listOf (field w "S")).mapM fun t =>
+        match t.splitOn "/" with
+        | [o, c, sg] => do some (parseName o, ← c.toNat?, parseName sg)
+        | _ => none
+      let inA ← parseBool (field w "in")
+      let out := findRRSIGSigners recs sigs (parseName (field w "q")) inA
+      some (if out.isEmpty then "-" else ",".intercalate (out.map showName))
+    (st, r.getD "bad-op")
+  | "wild" :: "answer" :: _ =>
+    let r : Option String := do
+      let z := parseName (field w "z")
+      let sa ← (listOf (field w "SA")).mapM fun t =>
+        match t.splitOn "/" with
+        | [id, owner, labels] => do
+          some ({ id := ← id.toNat?, owner := parseName owner, covered := 16, alg := 13, labels := ← labels.toNat?,
+                  expiration := 0, inception := 0, tag := 1, signer := z } : Sig)
+        | _ => none
+      let ns ← (listOf (field w "NS")).mapM fun t =>
+        match t.splitOn "/" with
+        | [id, owner, next] => do some ({ id := ← id.toNat?, owner := parseName owner, next := parseName next } : NSEC)
+        | _ => none
+      let cov := listOf (field w "cov")
+      let covers : NSEC → Name → Bool := fun n name => cov.contains (toString n.id ++ ":" ++ showName name)
+      let kept := sortNat ((filterNSEC z ns).map NSEC.id)
+      let v := match answerWildcard covers z sa ns with | .ok => "ok" | .fail _ => "fail"
+      some (v ++ " kept=" ++ showNats kept)
+    (st, r.getD "bad-op")
+  | "filter" :: "zone" :: _ =>
+    let r : Option String := do
+      let z := parseName (field w "z")
+      let rs ← (listOf (field w "R")).mapM fun t =>
+        match t.splitOn "/" with
+        | [o, ty] => do some ({ owner := parseName o, rtype := ← ty.toNat? } : SecRR)
+        | [o, ty, nx] => do some ({ owner := parseName o, rtype := ← ty.toNat?, next := some (parseName nx) } : SecRR)
+        | _ => none
+      let idx := (List.range rs.length).filter fun i => match rs[i]? with | some x => keepInZone z x | none => false
+      some (showNats idx)
+    (st, r.getD "bad-op")
+  | "rootds" :: "check" :: _ =>
+    let r : Option String := do
+      let on ← parseBool (field w "on")
+      let keys ← (field w "keys").toNat?
+      let npds ← (field w "pds").toNat?
+      let mk : Nat → Nat → List DS := fun base n => (List.range n).map fun i => ({ id := base + i, owner := [], tag := 1, alg := 13, dtype := 2 } : DS)
+      match rootParentDS on (mk 100 npds) (mk 0 keys) (parseName (field w "zone")) with
+      | none => some "err"
+      | some l => if l.all (fun d => decide (100 ≤ d.id)) then some "same" else some s!"anchors={l.length}"
+    (st, r.getD "bad-op")
+  | "supds" :: "check" :: _ =>
+    let r : Option String := do
+      let dss ← (listOf (field w "D")).mapM fun t =>
+        match t.splitOn "/" with
+        | [a, d] => do some ({ id := 0, owner := [], tag := 7, alg := ← a.toNat?, dtype := ← d.toNat? } : DS)
+        | _ => none
+      some (boolStr (hasSupportedDS dss))
+    (st, r.getD "bad-op")
   | "synth" :: "check" :: _ =>
     let r : Option String := do
       let ds ← (listOf (field w "D")).mapM fun t =>
